@@ -163,13 +163,25 @@ Definition infid_of_ff (F : A3) (idx : list nat) (sp : spectrum) (no : nat) (ome
 Definition infidelity_total (na nk no : nat) (Bm : A3) (basis : list Matc)
            (idx : list nat) (sp : spectrum) (omega : list T) : list T :=
   infid_of_ff (infid_ff_corrected na nk no Bm Bm (basis_traces basis nk)) idx sp no omega.
-(* which='correlations': pulse.get_pulse_correlation_filter_function() = 'gako,hbko->ghabo', corrected by the
-   rank-one term 'gao,hbo->ghabo' ONLY when pulse.is_cached('control_matrix_pc') ([has_cm_pc]) *)
-Definition infidelity_pc (has_cm_pc : bool) (na nk no : nat) (Bpc : list A3) (basis : list Matc)
+(* which='correlations': pulse.get_pulse_correlation_filter_function() = 'gako,hbko->ghabo', with ([corrected] = true)
+   or without the rank-one term 'gao,hbo->ghabo' *)
+Definition infidelity_pc_value (corrected : bool) (na nk no : nat) (Bpc : list A3) (basis : list Matc)
            (idx : list nat) (sp : spectrum) (omega : list T) : list (list (list T)) :=
   map (fun Bg => map (fun Bh =>
-         infid_of_ff (if has_cm_pc then infid_ff_corrected na nk no Bg Bh (basis_traces basis nk)
+         infid_of_ff (if corrected then infid_ff_corrected na nk no Bg Bh (basis_traces basis nk)
                       else ff_fidelity2 na nk no Bg Bh) idx sp no omega) Bpc) Bpc.
+(* the branch (after fix a9e668a):
+     traceless = np.allclose(einsum('ajj->a', n_opers[idx]), 0)              [sel_traceless]
+     if is_cached('control_matrix_pc') or not traceless:                     [has_cm_pc]
+         control_matrix = pulse.get_pulse_correlation_control_matrix()       -> CalculationError (None) when it is gone
+         ... rank-one correction
+   i.e. corrected when the control matrix is cached, uncorrected only for traceless selected operators,
+   CalculationError otherwise *)
+Definition infidelity_pc (has_cm_pc sel_traceless : bool) (na nk no : nat) (Bpc : list A3) (basis : list Matc)
+           (idx : list nat) (sp : spectrum) (omega : list T) : option (list (list (list T))) :=
+  if has_cm_pc then Some (infidelity_pc_value true na nk no Bpc basis idx sp omega)
+  else if sel_traceless then Some (infidelity_pc_value false na nk no Bpc basis idx sp omega)
+  else None.
 
 (* control matrix of a concatenated pulse from the pulse-correlation one: _control_matrix_pc.sum(axis=0) *)
 Definition cm_pc_sum (na nk no : nat) (Bpc : list A3) : A3 :=
